@@ -1,31 +1,20 @@
 (* C19 / clause 3 - faithful executable model of nipy/core/utils/generators.py
-   (definitions only; proofs are in GenProofs.v).
+   (definitions only; proofs are in GenProofs.v).  Follows /repo after commits
+   5c1bfaa (per-axis modulus) and 8bf3127 (negative int axis).
 
-   slice_generator (generators.py:141-190), list/tuple `axis` branch:
-       axis_lens = [data.shape[a] for a in axis]          -> lens
-       nmax = seq_prod(axis_lens)                          -> seq_prod lens
-       mods = np.cumprod(axis_lens)                        -> sg_mods lens   (CUMULATIVE products)
-       divs = [1] + list(mods[:-1])                        -> sg_divs lens
-       slice_template = [slice(0, s) for s in data.shape]  -> repeat (-1) ndim   (-1 = "whole axis")
+   slice_generator (generators.py:141-192), list/tuple `axis` branch:
+       axis_lens = [data.shape[a] for a in axis]                     -> lens
+       nmax = seq_prod(axis_lens)                                     -> seq_prod lens
+       divs = [1] + [int(m) for m in np.cumprod(axis_lens)[:-1]]      -> sg_divs lens
+       slice_template = [slice(0, s) for s in data.shape]             -> repeat (-1) ndim   (-1 = "whole axis")
        for n in range(nmax):
-           for (a, div, mod) in zip(axis, divs, mods):
-               x = int(n / div % mod)                      -> sg_x n div mod
-               slices[a] = x                               -> set_nth a x
-           yield slices, data[slices]                      -> (tuple, nd_block ...)  / IndexError
+           for (a, div, alen) in zip(axis, divs, axis_lens):
+               x = (n // div) % alen                                  -> sg_x n div alen   (integer arithmetic)
+               slices[a] = x                                          -> set_nth a x
+           yield slices, data[slices]                                 -> (tuple, nd_block ...)  / IndexError
 
-   The expression `int(n / div % mod)`: `n / div` is Python true division,
-   `% mod` the float modulo, `int` truncation.  For integers n >= 0, div > 0,
-   mod > 0 let q = n/div (a real >= 0).  q % mod = q - mod*floor(q/mod) lies in
-   [0, mod) and, mod*floor(q/mod) being an integer, floor(q % mod) =
-   floor(q) - mod*floor(q/mod) = floor(q) mod mod  (floor(q/mod) =
-   floor(floor(q)/mod) for an integer mod), and floor(q) = n div `div`.
-   Hence int(n / div % mod) = (n div `div`) mod `mod` (= (n mod (div*mod)) div `div`);
-   (argued here, not proved in Coq).  The floats
-   are exact enough: for |n|,|div| < 2^26 the correctly rounded quotient never
-   crosses an integer, and fmod is exact.  The correspondence check compares
-   the integer form against the running code on every generated case.
-
-   `type(axis) is int` branch (generators.py:165-169):
+   `type(axis) is int` branch (generators.py:165-171):
+       if axis < 0: axis += data.ndim
        for j in range(data.shape[axis]): ij = (slice(None),)*axis + (j,)
 *)
 From Coq Require Import ZArith List Bool Arith Lia.
@@ -40,12 +29,11 @@ Fixpoint cumprod_from (acc : nat) (l : list nat) : list nat :=
 Definition cumprod (l : list nat) : list nat := cumprod_from 1 l.       (* np.cumprod *)
 Definition seq_prod (l : list nat) : nat := fold_left Nat.mul l 1.       (* nipy.utils.seq_prod = reduce(mul, seq, 1) *)
 
-Definition sg_mods (lens : list nat) : list nat := cumprod lens.
-Definition sg_divs (lens : list nat) : list nat := 1 :: removelast (sg_mods lens).
-Definition sg_x (n d m : nat) : nat := (n / d) mod m.                   (* int(n / div % mod) *)
+Definition sg_divs (lens : list nat) : list nat := 1 :: removelast (cumprod lens).   (* [1] + cumprod[:-1] *)
+Definition sg_x (n d alen : nat) : nat := (n / d) mod alen.              (* (n // div) % alen *)
 (* the x computed for each entry of `axis` at step n (zip stops at the shorter list) *)
 Definition sg_xs (lens : list nat) (n : nat) : list nat :=
-  map (fun dm => sg_x n (fst dm) (snd dm)) (combine (sg_divs lens) (sg_mods lens)).
+  map (fun da => sg_x n (fst da) (snd da)) (combine (sg_divs lens) lens).
 
 Fixpoint set_nth {A} (k : nat) (v : A) (l : list A) : list A :=
   match l, k with
@@ -120,12 +108,16 @@ Definition sg_list {A} (shape : list nat) (flat : list A) (axes : list Z) : list
   | None => ([], true)
   end.
 
-(* slice_generator(data, axis=int): for j in range(data.shape[axis]): (slice(None),)*axis + (j,).
-   `(slice(None),)*axis` is the EMPTY tuple for a negative axis (Z.to_nat), while data.shape[axis]
-   counts from the end: the model reproduces this *)
+(* slice_generator(data, axis=int):
+       if axis < 0: axis += data.ndim
+       for j in range(data.shape[axis]): (slice(None),)*axis + (j,)
+   `data.shape[axis]` is Python sequence indexing (norm_axis); `(slice(None),)*axis` repeats
+   max(axis, 0) times (Z.to_nat) - so an axis below -ndim, still negative after the single wrap,
+   would index from the end with an empty prefix (outside the documented domain; modelled as is) *)
 Definition sg_int_tuples (shape : list nat) (axis : Z) (k : nat) : list (list Z) :=
   map (fun j => repeat whole (Z.to_nat axis) ++ [Z.of_nat j]) (seq 0 (nth k shape 0)).
 Definition sg_int {A} (shape : list nat) (flat : list A) (axis : Z) : list (list Z * list A) * bool :=
+  let axis := if (axis <? 0)%Z then (axis + Z.of_nat (length shape))%Z else axis in
   match norm_axis (length shape) axis with
   | Some k => take_ok shape flat (sg_int_tuples shape axis k)
   | None => ([], true)
